@@ -462,7 +462,7 @@ fn exec(req: &str) -> String {
     match std::panic::catch_unwind(|| exec_inner(&t)) { Ok(Some(s)) => s, Ok(None) => "bad-op".into(), Err(_) => "panic".into() }
 }
 
-enum Verdict { Ok, Fail(String), Known(&'static str, String), NoOracle }
+enum Verdict { Ok, Fail(String), NoOracle }
 
 /// the property: the SDK's view equals the program's view
 fn oracle(req: &str, resp: &str) -> Verdict {
@@ -484,12 +484,6 @@ fn oracle(req: &str, resp: &str) -> Verdict {
             let (Ok(lv), Ok(sv)) = (l.parse::<u128>(), s.parse::<u128>()) else { return Verdict::NoOracle };
             let Some(o) = exec_poolop(other, *pure == "1", lv, sv, op, a, b) else { return Verdict::NoOracle };
             if o == resp { return Verdict::Ok; }
-            // F-C40: narrow predicate — impure pool, cancel, both amounts above i128::MAX, the SDK (trait default) errs
-            let big = 1u128 << 127;
-            let (sdk_r, prog_r) = if *side == "sdk" { (resp.to_string(), o.clone()) } else { (o.clone(), resp.to_string()) };
-            if *op == "cancel" && *pure == "0" && lv >= big && sv >= big && sdk_r == "err" && prog_r.starts_with("ok ") {
-                return Verdict::Known("F-C40", format!("SDK Pool::checked_cancel_amounts (trait default) fails on ({lv}, {sv}); the program's override returns `{prog_r}`"));
-            }
             Verdict::Fail(format!("Pool::{op} on (pure={pure}, {lv}, {sv}) args ({a}, {b}): {side} `{resp}` vs {other} `{o}`"))
         }
         ["c40", "layout", "size", _] => { let p: Vec<&str> = resp.split(' ').collect(); if p.len() == 3 && p[0] == "ok" && p[1] == p[2] { Verdict::Ok } else { Verdict::Fail(format!("account size differs between the program and the SDK declaration: {resp}")) } }
@@ -560,7 +554,6 @@ fn main() {
         if resp == "panic" { out.oracle_fail("panicked", &req); }
         match oracle(&req, &resp) {
             Verdict::Fail(why) => out.oracle_fail(&why, &req),
-            Verdict::Known(id, why) => { out.known(id, &why, &req); out.stat("oracle.known"); }
             Verdict::Ok => out.stat("oracle.checked"),
             Verdict::NoOracle => out.stat("oracle.none"),
         }
